@@ -145,7 +145,7 @@ pub mod native {
         }
         fn cover(&mut self, _name: &'static str, _c: bool) {}
         fn note(&mut self, what: &'static str, v: usize) { self.drawn.push(format!("{what}={v}")); }
-        fn describe<F: FnOnce() -> String>(&mut self, f: F) { self.drawn.push(f()); }
+        fn describe<F: FnOnce() -> String>(&mut self, f: F) { self.drawn.push(f().replace('\n', " ")); }
     }
 
     /// Replays the byte vectors of a Kani concrete playback in draw order.
@@ -180,7 +180,7 @@ pub mod native {
         }
         fn cover(&mut self, _name: &'static str, _c: bool) {}
         fn note(&mut self, what: &'static str, v: usize) { self.drawn.push(format!("{what}={v}")); }
-        fn describe<F: FnOnce() -> String>(&mut self, f: F) { self.drawn.push(f()); }
+        fn describe<F: FnOnce() -> String>(&mut self, f: F) { self.drawn.push(f().replace('\n', " ")); }
     }
 
     pub type ContractFn<C> = fn(&mut C);
